@@ -277,6 +277,38 @@ def add_reversed_twin(rng, ag, value_cap=1 << 18):
     return b if nat_bound(b) <= value_cap else ag
 
 
+def add_shared_rhs_twin(rng, ag, reachable=True):
+    """A second rule, for a NEW nonterminal W of the same type, whose right-hand side is THE SAME Graph object as an
+    existing rule's (field 'share' = index of that rule; honoured by build_fgg / build_incremental).  Anything keyed by
+    the identity of a right-hand side (a memo, a visited set) then confuses the two rules.  If `reachable`, the start
+    rule set gets  S' -> ...  untouched but some rule that mentions X also gets a sibling mentioning W (same shape)."""
+    import copy
+    cands = [ri for ri, r in enumerate(ag['rules']) if any(not ag['els'][e['lab']]['t'] for e in r['edges'])] \
+            or list(range(len(ag['rules'])))
+    if not cands or 'W' in ag['els']:
+        return ag
+    b = copy.deepcopy(ag)
+    ri = rng.choice(cands)
+    r = b['rules'][ri]
+    b['els']['W'] = {'t': False, 'type': list(b['els'][r['lhs']]['type'])}
+    b['elorder'].insert(rng.randrange(len(b['elorder']) + 1), 'W')
+    twin = copy.deepcopy(r)
+    twin['lhs'] = 'W'
+    twin['share'] = ri
+    b['rules'].append(twin)
+    if reachable:
+        # a use of W wherever it keeps the grammar's recursion class: a copy of some rule using lhs X with X replaced by W
+        users = [qi for qi, q in enumerate(b['rules'][:-1]) if any(e['lab'] == r['lhs'] for e in q['edges']) and q['lhs'] != r['lhs']]
+        if users:
+            q = copy.deepcopy(b['rules'][rng.choice(users)])
+            q.pop('share', None)
+            for e in q['edges']:
+                if e['lab'] == r['lhs']:
+                    e['lab'] = 'W'
+            b['rules'].append(q)
+    return b
+
+
 # --------------------------------------------------------------------------
 # building the real objects
 
@@ -344,6 +376,13 @@ def build_fgg(ag, kind='real', dtype=None, *, rule_order=None, implicit_ids=Fals
 
     def add_rule_ix(ri):
         r = ag['rules'][ri]
+        if r.get('share') is not None and r['share'] in info['rules']:
+            # the very same Graph object as another rule's right-hand side
+            j = r['share']
+            rule = HRGRule(el[r['lhs']], info['rules'][j].rhs)
+            g.add_rule(rule)
+            info['nodes'][ri], info['edges'][ri], info['rules'][ri] = info['nodes'][j], info['edges'][j], rule
+            return
         rhs = Graph()
         nodes = []
         for j, l in enumerate(r['nodes']):
@@ -572,8 +611,15 @@ def build_incremental(ag, on_step, with_start_first=True, detour_rng=None):
             stage = dict(stage, els=dict(stage['els'], **{n: ag['els'][n]}), elorder=stage['elorder'] + [n])
         if not ag['els'][n]['t']:
             on_step(g, stage)
+    built = {}
     for ri, r in enumerate(ag['rules']):
+        if r.get('share') is not None and r['share'] in built:
+            g.add_rule(HRGRule(el[r['lhs']], built[r['share']]))
+            stage = dict(stage, rules=stage['rules'] + [r])
+            on_step(g, stage)
+            continue
         rhs = Graph()
+        built[ri] = rhs
         nodes = [Node(nl[l], id=f'r{ri}v{j+1}') for j, l in enumerate(r['nodes'])]
         for v in nodes:
             rhs.add_node(v)
